@@ -821,9 +821,13 @@ func (bc *Blockchain) jumpToStateInternal(p uint32, stage stateChangeStage) erro
 			if err != nil {
 				return fmt.Errorf("failed to retrieve genesis block hash: %w", err)
 			}
-			_, err = cache.DeleteBlock(genesisBlock.Hash())
-			if err != nil {
-				return fmt.Errorf("failed to remove outdated state data for the genesis block: %w", err)
+			// While there is no complete page of header hashes, they are restored
+			// on restart by walking the headers down to the genesis one.
+			if bc.HeaderHeight()+1 >= headerBatchCount {
+				_, err = cache.DeleteBlock(genesisBlock.Hash())
+				if err != nil {
+					return fmt.Errorf("failed to remove outdated state data for the genesis block: %w", err)
+				}
 			}
 			prefixes := []byte{byte(storage.STNEP11Transfers), byte(storage.STNEP17Transfers), byte(storage.STTokenTransferInfo)}
 			for i := range prefixes {
